@@ -93,11 +93,8 @@ theorem insOnce_ok (k : KV) (x : Rat) (hwf : WF k.v k.deg) (hsep : Separated k.v
     have := umax_eq_last k.v k.deg hwf; unfold KV.umax KV.npts; exact this.symm
   have hr : ¬ (x < nth k.v 0 ∨ k.v.getLastD 0 < x) := by
     rw [hfirst, hlast]; intro h; rcases h with h | h <;> linarith
-  have hvn : k.validNode x = true := by
-    simp only [KV.validNode, Bool.not_eq_true', Bool.or_eq_false_iff, decide_eq_false_iff_not, not_lt]
-    exact ⟨le_of_lt hx1, le_of_lt hx2⟩
   unfold insOnce
-  simp only [bind, Except.bind, pure, Except.pure, hr, if_false, hs, KV.mult, hvn, Bool.not_true, Bool.false_eq_true]
+  simp only [bind, Except.bind, pure, Except.pure, hr, if_false, hs]
   exact ⟨_, rfl⟩
 
 theorem insTimes_ok (big : List Rat) (hbig : Separated big) (x : Rat) (hxbig : x ∈ big) :
